@@ -15,7 +15,7 @@ from common import coq_str, coq_list, coq_z
 
 THEOREMS = ["C01_init", "C01_step", "C01_reachable", "C01_public", "C01_atomic", "C01_atomic_reachable",
             "C01_extend_atomic", "C01_value_setter_atomic",
-            "C01_no_internal_error", "C01_example", "C01_example_atomic"]
+            "C01_no_internal_error", "C01_example", "C01_example_atomic", "C01_generated_ids_any_clock"]
 
 # ----------------------------------------------------------------------------- scenarios
 
@@ -72,6 +72,95 @@ def lazy(items, fails):
             yield x
         raise FailingIterable("the iterable failed while it was consumed")
     return gen()
+
+
+# ----------------------------------------------------------------------------- environment: the clocks
+# The property quantifies over operation sequences only: what a call does must not depend on anything outside the
+# history.  The one outside input that the namespace code reads is the clock (generated idShorts of list items).  Every
+# case therefore names the clock it runs under ("clock" in the case, part of the replay); the model has no clock at all,
+# so the tie compares the SDK under *every* clock below with the same model trace, and the oracle judges each run.
+#   running   the real clocks
+#   frozen    no clock advances during the history (all calls fall into one tick of a coarse clock)
+#   coarse    the clocks advance by one 15.6 ms tick after every 4th reading (Windows / VM timer resolution)
+#   stepback  the wall clock is set back by 1 s at every 3rd reading (NTP step, DST-less but legal); the monotonic
+#             clocks are coarse
+CLOCK_MODES = ["running", "frozen", "coarse", "stepback"]
+_WALL = ("time", "time_ns")
+_MONO = ("monotonic", "monotonic_ns", "perf_counter", "perf_counter_ns", "process_time", "process_time_ns",
+         "thread_time", "thread_time_ns")
+_TICK = 15_625_000
+
+
+def _alias_sites(orig):
+    """module globals of the SDK that were bound by `from time import ...`: (module dict, name, clock name)"""
+    if not hasattr(_alias_sites, "c"):
+        sites = []
+        by_id = {id(f): n for n, f in orig.items()}
+        for mn, mod in list(_sys.modules.items()):
+            if mod is None or not (mn == "basyx" or mn.startswith("basyx.")):
+                continue
+            for gn, gv in list(vars(mod).items()):
+                if id(gv) in by_id and gv is orig[by_id[id(gv)]]:
+                    sites.append((vars(mod), gn, by_id[id(gv)]))
+        _alias_sites.c = sites
+    return _alias_sites.c
+
+
+class clock_env:
+    """`with clock_env(mode):` - the clocks of the `time` module behave as described above inside the block (the real
+    functions are put back on exit, also when the block raises)."""
+
+    def __init__(self, mode):
+        assert mode in CLOCK_MODES, mode
+        self.mode = mode
+
+    def __enter__(self):
+        if self.mode == "running":
+            return self
+        import time as _t
+        _sdk()
+        if not hasattr(clock_env, "orig"):
+            clock_env.orig = {n: getattr(_t, n) for n in _WALL + _MONO if hasattr(_t, n)}
+        orig = clock_env.orig
+        mode = self.mode
+        base = {}
+        for n in orig:
+            stem = n[:-3] if n.endswith("_ns") else n
+            if stem not in base:
+                base[stem] = orig[stem + "_ns"]() if stem + "_ns" in orig else int(orig[stem]() * 1e9)
+        reads = {stem: 0 for stem in base}
+
+        def reading(stem):
+            k = reads[stem]
+            reads[stem] = k + 1
+            if mode == "frozen":
+                return base[stem]
+            if mode == "stepback" and stem == "time":
+                return base[stem] + (k % 3) * 1000 - (k // 3) * 1_000_000_000
+            return base[stem] + (k // 4) * _TICK
+
+        def mk(n):
+            stem = n[:-3] if n.endswith("_ns") else n
+            if n.endswith("_ns"):
+                return lambda: reading(stem)
+            return lambda: reading(stem) / 1e9
+        self.fakes = {n: mk(n) for n in orig}
+        for n, f in self.fakes.items():
+            setattr(_t, n, f)
+        self.sites = _alias_sites(orig)
+        for d, gn, n in self.sites:
+            d[gn] = self.fakes[n]
+        return self
+
+    def __exit__(self, *a):
+        if self.mode == "running":
+            return False
+        import time as _t
+        for n, f in clock_env.orig.items():
+            setattr(_t, n, f)
+        for d, gn, n in self.sites:
+            d[gn] = clock_env.orig[n]
+        return False
 
 
 def coq_str_any(t):
@@ -633,7 +722,13 @@ def ordered_orders(ctx):
 
 
 def run_sdk(case, with_trace=True):
-    """case = {kind, pool, ops}.  Returns (trace, failures) with failures = [(step, class, message)]."""
+    """case = {kind, pool, ops[, clock]}.  Returns (trace, failures) with failures = [(step, class, message)].
+    The whole history (construction of the pool included) runs under the clock named by the case."""
+    with clock_env(case.get("clock", "running")):
+        return _run_sdk(case, with_trace)
+
+
+def _run_sdk(case, with_trace):
     ctx = Ctx(case["kind"], [tuple(p) for p in case["pool"]])
     trace, fails = [], []
     for k, op in enumerate(case["ops"]):
@@ -702,6 +797,14 @@ def gen_case(rng, kind, maxlen, extra=False):
     """Generates the operations online against the SDK objects (so that indices make sense) and
     returns the replayable case.  extra=True mixes in calls that the model does not cover
     (extended slices, MutableSequence/MutableSet mixin methods): oracle-only stream."""
+    clock = rng.choice(CLOCK_MODES)
+    with clock_env(clock):
+        case = _gen_case(rng, kind, maxlen, extra)
+    case["clock"] = clock
+    return case
+
+
+def _gen_case(rng, kind, maxlen, extra):
     attr, cs, nsets, ordered, hooks = KINDS[kind]
     pool = gen_pool(rng, kind)
     # rollback probe (slice assignment with >= 2 accepted new items followed by a refused one): needs a
@@ -995,7 +1098,14 @@ def shrink_ops(case, pred):
                 cur = c2
                 changed = True
                 break
-    return dict(cur, ops=ops)
+    cur = dict(cur, ops=ops)
+    if cur.get("clock", "running") != "running":
+        # name a clock in the replay only if the failure needs it; otherwise the simplest one that shows it
+        for c in ("running", "frozen"):
+            if c != cur["clock"] and pred(dict(cur, clock=c)):
+                cur = dict(cur, clock=c)
+                break
+    return cur
 
 
 def first_fail(case):
@@ -1008,6 +1118,14 @@ def first_fail(case):
 
 def signature(case, cls):
     return f"C01:{case['kind']}:{cls}"
+
+
+def with_clock(case, msg):
+    c = case.get("clock", "running")
+    if c == "running":
+        return msg
+    return msg + f" [history run under the '{c}' clock (tools/c01.py clock_env); with running clocks the same history" \
+                 f" {'also fails' if first_fail(dict(case, clock='running')) else 'passes'}]"
 
 
 # ----------------------------------------------------------------------------- run
@@ -1061,6 +1179,16 @@ def exhaustive_cases():
     return out
 
 
+def clock_cases():
+    """directed, oracle only: all sequences of length <= 2 over the 20-op alphabet of exhaustive_cases() on a
+    SubmodelElementList (the namespace whose identifying attributes the SDK generates itself) and on an ordered user
+    namespace, under every clock that is not the running one"""
+    for case in exhaustive_cases():
+        if len(case["ops"]) <= 3:
+            for c in CLOCK_MODES[1:]:
+                yield dict(case, clock=c)
+
+
 def run(chk):
     rng = chk.rng
     nseq, maxlen = (3000, 12) if chk.tier == "quick" else (12000, 20)
@@ -1079,8 +1207,9 @@ def run(chk):
     for ci, case in enumerate(cases):
         trace, fails = run_sdk(case)
         nt = sum(1 for o in case["ops"] if o[0] != "construct") >= 2
-        chk.seen((case["kind"], case["pool"], case["ops"]), nontrivial=nt)
+        chk.seen((case["kind"], case["pool"], case["ops"], case.get("clock", "running")), nontrivial=nt)
         chk.count("kind=" + case["kind"])
+        chk.count("clock=" + case.get("clock", "running"))
         chk.count(f"len={min(len(case['ops']) // 5 * 5, 30)}+")
         for o, t in zip(case["ops"], trace):
             chk.count("op=" + o[0])
@@ -1095,7 +1224,7 @@ def run(chk):
                 small = shrink_ops(dict(case, ops=case["ops"][:k + 1]),
                                    lambda c2: (first_fail(c2) or (0, None, None))[1] == cls)
                 ff = first_fail(small)
-                chk.fail(sig, ff[2] if ff else msg, {"case": small, "how": "tools/c01.py run_sdk(case): oracle check_invariant + snapshot"})
+                chk.fail(sig, with_clock(small, ff[2] if ff else msg), {"case": small, "how": "tools/c01.py run_sdk(case): oracle check_invariant + snapshot"})
         terms.append(coq_case(case, trace))
         if len(chk.samples) < 4 and len(case["ops"]) >= 6 and ci >= ncorpus:
             chk.samples.append({"case": case, "sdk_observation_after_last_call": trace[-1]})
@@ -1117,12 +1246,27 @@ def run(chk):
             if sig not in reported:
                 reported.add(sig)
                 chk.fail(sig, msg, {"case": case, "how": "tools/c01.py run_sdk(case): oracle only (xslice_cases)"})
+    # directed: short histories under clocks that do not advance / advance coarsely / step back (oracle only)
+    for case in clock_cases():
+        _, fails = run_sdk(case, with_trace=False)
+        chk.count("directed_clock_cases")
+        chk.evaluations += 1
+        if fails:
+            k, cls, msg = fails[0]
+            sig = signature(case, cls)
+            if sig not in reported:
+                reported.add(sig)
+                small = shrink_ops(dict(case, ops=case["ops"][:k + 1]),
+                                   lambda c2: (first_fail(c2) or (0, None, None))[1] == cls)
+                ff = first_fail(small)
+                chk.fail(sig, with_clock(small, ff[2] if ff else msg),
+                         {"case": small, "how": "tools/c01.py run_sdk(case): oracle only (clock_cases)"})
     # oracle-only stream: calls outside the model (extended slices, mixin methods)
     nx = 1500 if chk.tier == "quick" else 8000
     for i in range(nx):
         case = gen_case(rng, kinds[i % len(kinds)], maxlen, extra=True)
         _, fails = run_sdk(case, with_trace=False)
-        chk.seen((case["kind"], case["pool"], case["ops"]), nontrivial=True)
+        chk.seen((case["kind"], case["pool"], case["ops"], case.get("clock", "running")), nontrivial=True)
         chk.count("oracle_only_cases")
         if fails:
             k, cls, msg = fails[0]
@@ -1132,7 +1276,7 @@ def run(chk):
                 small = shrink_ops(dict(case, ops=case["ops"][:k + 1]),
                                    lambda c2: (first_fail(c2) or (0, None, None))[1] == cls)
                 ff = first_fail(small)
-                chk.fail(sig, ff[2] if ff else msg, {"case": small, "how": "tools/c01.py run_sdk(case): oracle only"})
+                chk.fail(sig, with_clock(small, ff[2] if ff else msg), {"case": small, "how": "tools/c01.py run_sdk(case): oracle only"})
     bad, errs = common.run_mismatch_shards("C01", PRELUDE, terms, "check_case", shard=200 if chk.tier == "quick" else 400)
     chk.traces = common.run_mismatch_shards.evaluated - len(bad)
     for e in errs:
@@ -1160,7 +1304,8 @@ def run(chk):
         "hand-written model coq/theories/model/Namespace.v tied to base.py/submodel.py by this correspondence run "
         "(every public call of the history, observation after each call)",
         "uuid.uuid1 never repeats within a process (generated idShorts of SubmodelElementList children are modelled "
-        "by a counter)",
+        "by a counter); since round 7 this is exercised rather than only assumed: every history runs under one of the "
+        "clocks running / frozen / coarse / stepback (clock_env) and is compared with the clock-free model",
         "tools/c01.py (generator, SDK driver, canonicaliser, invariant oracle), tools/common.py",
     ]
     chk.assumptions = ["elements have the identifying attribute of the collection they are passed to (typed API)",
@@ -1171,7 +1316,8 @@ def run(chk):
                       rule="seeded random histories over 11 namespace kinds (8 SDK kinds + 3 user-defined namespaces "
                            "built from the public NamespaceSet classes), pools of 6 elements with colliding / "
                            "case-differing / None identifying attributes, two or more owners so that elements are "
-                           "owned elsewhere, removed elements re-inserted; thorough adds all sequences of length<=3 "
+                           "owned elsewhere, removed elements re-inserted; each history under one of four clocks (running, "
+                           "frozen, coarse tick, wall clock stepping back) - the model has no clock; thorough adds all sequences of length<=3 "
                            "over 20 ops; non-trivial = at least 2 calls after the constructors; distinct by (kind, pool, ops)")
 
 
